@@ -5,7 +5,7 @@
    Conventions of the model (Model/C04_Dens.v): a parameter is a list of length 1 (scalar, broadcast by
    `bc n`) or n; `fixed` selects the repaired (true) or the unrepaired (false) formula of the defects
    that have a fix proposal; lnGamma enters through its value G = Gamma(shape) > 0. *)
-From CV Require Import Base.Tac Base.Cmp Model.C04_Dens Model.C04_Cdf Proofs.C04_Cdf Proofs.C04_Cdf2 Proofs.C04_Beta Proofs.C04_Lim Proofs.C04_InvGamma Proofs.C04_Refine Proofs.C04_GammaLaw Proofs.C04_Dens Proofs.C04_Gauss Proofs.C04_Norm Proofs.C04_More Proofs.C04_Sym.
+From CV Require Import Base.Tac Base.Cmp Model.C04_Dens Model.C04_Cdf Proofs.C04_Cdf Proofs.C04_Cdf2 Proofs.C04_Beta Proofs.C04_Lim Proofs.C04_InvGamma Proofs.C04_Refine Proofs.C04_GammaLaw Proofs.C04_Dens Proofs.C04_Gauss Proofs.C04_Norm Proofs.C04_More Proofs.C04_Sym Proofs.C04_Box.
 From Coq Require Import QArith Reals Lra.
 From Coquelicot Require Import Coquelicot.
 Local Open Scope R_scope.
@@ -453,6 +453,114 @@ Proof.
   split; [exact cauchy_mass | exact cauchy_normalised].
 Qed.
 Print Assumptions C04_normalised_partial.
+
+(* ---------- n-DIMENSIONAL normalisation: the per-coordinate results lifted to the product densities the code evaluates ----------
+   `is_box_int f box v` (Proofs/C04_Box.v): the iterated integral of f : list R -> R over the box [a1,b1] x ... x [an,bn] exists at
+   every level and equals v (it is unique: C04_box_int_unique).  The integrand of every theorem below is exp (the model's logpdf),
+   i.e. the function the correspondence cells evaluate; parameters are scalar-broadcast or vectors (bc), every n (induction on n). *)
+Theorem C04_box_int_unique : forall (f : list R -> R) (box : list (R * R)) (v w : R),
+  is_box_int f box v -> is_box_int f box w -> v = w.
+Proof. exact is_box_int_unique. Qed.
+Print Assumptions C04_box_int_unique.
+
+(* the Fubini step for product densities, every n and every parameter type *)
+Theorem C04_box_int_product : forall (A : Type) (k : A -> R -> R) (ms : A -> R * R -> R) (ps : list A) (box : list (R * R)),
+  length box = length ps ->
+  (forall q, In q (combine ps box) -> is_RInt (k (fst q)) (fst (snd q)) (snd (snd q)) (ms (fst q) (snd q))) ->
+  is_box_int (fun xs => rprod (map (fun q => k (fst q) (snd q)) (combine ps xs))) box
+             (rprod (map (fun q => ms (fst q) (snd q)) (combine ps box))).
+Proof. exact @box_int_product. Qed.
+Print Assumptions C04_box_int_product.
+
+(* Normal (= Gaussian with scalar / vector / diagonal covariance, C04_gaussian_diag_documented): the mass of EVERY box is the product
+   of the cdf differences (FULL) *)
+Theorem C04_normal_box_mass : forall (mean std : list R) (box : list (R * R)),
+  (length mean = 1%nat \/ length mean = length box) -> (length std = 1%nat \/ length std = length box) ->
+  Forall (fun s => 0 < s) std ->
+  is_box_int (fun xs => exp (normal_logpdf mean std xs)) box
+    (rprod (map (ls_mass1 normal_cdf1) (combine (zip2 (bc (length box) mean) (bc (length box) std)) box))).
+Proof. exact normal_box_mass. Qed.
+Print Assumptions C04_normal_box_mass.
+
+Theorem C04_cauchy_box_mass : forall (loc scale : list R) (box : list (R * R)),
+  (length loc = 1%nat \/ length loc = length box) -> (length scale = 1%nat \/ length scale = length box) ->
+  Forall (fun s => 0 < s) scale ->
+  is_box_int (fun xs => exp (cauchy_logpdf loc scale xs)) box
+    (rprod (map (ls_mass1 cauchy_cdf1) (combine (zip2 (bc (length box) loc) (bc (length box) scale)) box))).
+Proof. exact cauchy_box_mass. Qed.
+Print Assumptions C04_cauchy_box_mass.
+
+(* ... and over the boxes prod [loc_i - T, loc_i + T] it tends to 1: the n-dimensional Cauchy density integrates to one (FULL) *)
+Theorem C04_cauchy_normalised_nd : forall (loc scale : list R) (n : nat), Forall (fun s => 0 < s) scale ->
+  is_lim (fun T => rprod (map (ls_mass1 cauchy_cdf1)
+                              (combine (zip2 (bc n loc) (bc n scale)) (centred_box2 T (zip2 (bc n loc) (bc n scale))))))
+         p_infty 1.
+Proof. exact cauchy_centred_normalised. Qed.
+Print Assumptions C04_cauchy_normalised_nd.
+
+(* Laplace (scalar scale, location scalar or vector): mass of prod [loc_i - T, loc_i + T] is (1 - exp(-T/b))^n, which tends to 1 (FULL) *)
+Theorem C04_laplace_normalised_nd : forall (loc : list R) (b : R) (n : nat), 0 < b -> (length loc = 1%nat \/ length loc = n) ->
+  (forall T, 0 <= T -> is_box_int (fun xs => exp (laplace_logpdf n loc b xs)) (centred_box T (bc n loc)) ((1 - exp (- T / b)) ^ n)) /\
+  is_lim (fun T => (1 - exp (- T / b)) ^ n) p_infty 1.
+Proof. intros loc b n Hb Hl. split; [intros T HT; apply laplace_box_mass; assumption | apply laplace_box_normalised; exact Hb]. Qed.
+Print Assumptions C04_laplace_normalised_nd.
+
+(* Uniform: exp(logpdf) integrates to one over its own box, every dimension (guard = complement of the scalar-bounds defect) *)
+Theorem C04_uniform_normalised_nd : forall (fixed : bool) (n : nat) (low high : list R),
+  (length low = 1%nat \/ length low = n) -> (length high = 1%nat \/ length high = n) ->
+  Forall (fun p => fst p < snd p) (zip2 (bc n low) (bc n high)) ->
+  (fixed = true \/ length low = n \/ length high = n) ->
+  is_box_int (fun _ => exp (uniform_logpdf fixed n low high)) (zip2 (bc n low) (bc n high)) 1.
+Proof. exact uniform_box_normalised. Qed.
+Print Assumptions C04_uniform_normalised_nd.
+
+(* Gamma with integer shapes k_i + 1 (lnGamma(k+1) = ln k!), rates r_i: mass of (0,T)^n = product of the 1-d cdfs -> 1 (FULL) *)
+Theorem C04_gamma_int_normalised_nd : forall ps : list (nat * R), Forall (fun p => 0 < snd p) ps ->
+  (forall T, 0 < T ->
+     is_box_int (fun xs => exp (gamma_logpdf (map gamma_int_g ps) (map gamma_int_shape ps) (map snd ps) xs))
+                (map (fun _ => (0, T)) ps) (rprod (map (fun p => gamma_int_cdf1 (fst p) (snd p) T) ps))) /\
+  is_lim (fun T => rprod (map (fun p => gamma_int_cdf1 (fst p) (snd p) T) ps)) p_infty 1.
+Proof. intros ps H. split; [intros T HT; apply gamma_int_box_mass; assumption | apply gamma_int_box_normalised; exact H]. Qed.
+Print Assumptions C04_gamma_int_normalised_nd.
+
+(* Beta with integer parameters (a_i + 1, b_i + 1): exp(logpdf) integrates to one over (0,1)^n (FULL) *)
+Theorem C04_beta_int_normalised_nd : forall ps : list (nat * nat),
+  is_box_int (fun xs => exp (beta_logpdf (map beta_int_ga ps) (map beta_int_gb ps) (map beta_int_gab ps)
+                                         (map beta_int_alpha ps) (map beta_int_beta ps) xs))
+             (map (fun _ => (0, 1)) ps) 1.
+Proof. exact beta_int_box_normalised. Qed.
+Print Assumptions C04_beta_int_normalised_nd.
+
+(* InverseGamma with integer shapes (k_i + 1), locations l_i, scales s_i: its integer-shape density is the documented one, its cdf
+   integrates it over every interval of the support, and exp(logpdf) over prod (l_i + 1/T, l_i + T) has mass -> 1 (FULL) *)
+Theorem C04_invgamma_int_pdf_documented : forall (k : nat) (l sc x : R), l < x -> 0 < sc ->
+  invgamma_int_pdf k l sc x = invgamma_pdf1 (INR (fact k)) (INR (S k)) l sc x.
+Proof. exact invgamma_int_pdf_doc. Qed.
+Print Assumptions C04_invgamma_int_pdf_documented.
+
+Theorem C04_invgamma_cdf_integral : forall (k : nat) (l sc a b : R), l < a -> a <= b ->
+  is_RInt (invgamma_int_pdf k l sc) a b (invgamma_int_cdf1 k l sc b - invgamma_int_cdf1 k l sc a).
+Proof. exact invgamma_int_cdf_is_integral. Qed.
+Print Assumptions C04_invgamma_cdf_integral.
+
+Theorem C04_invgamma_int_normalised_nd : forall ps : list (nat * R * R), Forall (fun p => 0 < snd p) ps ->
+  (forall T, 1 < T ->
+     is_box_int (fun xs => exp (invgamma_logpdf (map invgamma_int_g ps) (map invgamma_int_shape ps) (map (fun p => snd (fst p)) ps) (map snd ps) xs))
+                (invgamma_box T ps) (rprod (map (invgamma_mass1 T) ps))) /\
+  is_lim (fun T => rprod (map (invgamma_mass1 T) ps)) p_infty 1.
+Proof. intros ps H. split; [intros T HT; apply invgamma_int_box_mass; assumption | apply invgamma_int_box_normalised; exact H]. Qed.
+Print Assumptions C04_invgamma_int_normalised_nd.
+
+(* Lognormal with diagonal covariance V, every n: by u_i = ln t_i the mass of prod [exp(-v), exp(v)] is the product of the Normal cdf
+   differences at +-v (FULL change-of-variables identity) *)
+Theorem C04_lognormal_box_mass : forall (V mean : list R) (v : R), 0 <= v ->
+  (length mean = 1%nat \/ length mean = length V) -> Forall (fun c => 0 < c) V ->
+  is_box_int (fun xs => exp (lognormal_logpdf (gauss_diag_logpdf FCov false (length xs) V mean (map ln xs)) xs))
+             (map (fun _ => (exp (- v), exp v)) V)
+             (rprod (map (fun p => normal_cdf1 (fst p, snd p, v) - normal_cdf1 (fst p, snd p, - v))
+                         (zip2 (bc (length V) mean) (map sqrt V)))).
+Proof. exact lognormal_box_mass. Qed.
+Print Assumptions C04_lognormal_box_mass.
 
 (* ---------- non-vacuity: the hypotheses are satisfiable and the formulas are the expected numbers ---------- *)
 Example C04_nonvacuous :
